@@ -113,35 +113,39 @@ def prepare_workspace():
             '--exclude', '.*.aux', '--exclude', 'Makefile*', '--exclude', '.Makefile*', '--exclude', 'Generated/',
             os.path.join(ROOT, 'coq') + '/', COQ + '/'])
         sh(['rsync', '-a', '--delete', '--exclude', 'Cargo.lock', os.path.join(ROOT, 'harness') + '/', HARNESS + '/'])
-        p = os.path.join(HARNESS, 'Cargo.toml')
-        s = open(p).read().replace('path = "/repo"', 'path = "%s"' % REPO)
-        write_if_changed(p, s)
+        for d in os.listdir(HARNESS):
+            p = os.path.join(HARNESS, d, 'Cargo.toml')
+            if os.path.exists(p):
+                s = open(p).read().replace('path = "/repo"', 'path = "%s"' % REPO)
+                write_if_changed(p, s)
 
 
 # ----------------------------------------------------------------------------
 # Rust harness
 
 def harness_build(crates, release=False):
-    """Build harness crates against REPO's working tree with the hook guard on."""
+    """Build harness crates against REPO's working tree with the hook guard on.
+    Every crate under harness/ is its own workspace (own Cargo.lock copied from the repository),
+    all sharing one target directory so aeron-rs itself is compiled once per profile."""
     lock_src = os.path.join(REPO, 'Cargo.lock')
-    lock_dst = os.path.join(HARNESS, 'Cargo.lock')
+    env = {'CARGO_TARGET_DIR': CARGO_TARGET, 'RUSTFLAGS': '--cfg %s -Awarnings' % GUARD}
     with _Lock('cargo'):
-        if not os.path.exists(lock_dst):
-            shutil.copy(lock_src, lock_dst)
-        cmd = ['cargo', 'build', '--offline', '--quiet']
         for c in crates:
-            cmd += ['-p', c]
-        if release:
-            cmd.append('--release')
-        env = {'CARGO_TARGET_DIR': CARGO_TARGET, 'RUSTFLAGS': '--cfg %s -Awarnings' % GUARD}
-        t0 = time.time()
-        rc, out = sh(cmd, cwd=HARNESS, timeout=1800, env=env)
-        if rc != 0 and 'Cargo.lock' in out:
-            shutil.copy(lock_src, lock_dst)
-            rc, out = sh(cmd, cwd=HARNESS, timeout=1800, env=env)
-        if rc != 0:
-            raise MachineryError('harness build failed (%s):\n%s' % (' '.join(cmd), out[-6000:]))
-        log('[harness] built %s (%s) in %.1fs' % (','.join(crates), 'release' if release else 'debug', time.time() - t0))
+            cdir = os.path.join(HARNESS, c)
+            lock_dst = os.path.join(cdir, 'Cargo.lock')
+            if not os.path.exists(lock_dst):
+                shutil.copy(lock_src, lock_dst)
+            cmd = ['cargo', 'build', '--offline', '--quiet']
+            if release:
+                cmd.append('--release')
+            t0 = time.time()
+            rc, out = sh(cmd, cwd=cdir, timeout=1800, env=env)
+            if rc != 0 and ('Cargo.lock' in out or 'lock file' in out):
+                shutil.copy(lock_src, lock_dst)
+                rc, out = sh(cmd, cwd=cdir, timeout=1800, env=env)
+            if rc != 0:
+                raise MachineryError('harness build failed (%s in %s):\n%s' % (' '.join(cmd), cdir, out[-6000:]))
+            log('[harness] built %s (%s) in %.1fs' % (c, 'release' if release else 'debug', time.time() - t0))
 
 
 def harness_bin(crate, release=False):
